@@ -3,13 +3,19 @@
 import json, os, shutil, sys, re
 SRC = "/tmp/wt/out"
 DST = "/verif/seeded"
+OWN_PROPS = {"OWN-git-count-first-parent": "C02", "OWN-git-status-uno": "C02", "OWN-git-author-time": "C02", "OWN-git-tag-time-tagger": "C02",
+             "OWN-git-max-over-all-reachable": "C02", "OWN-ron-skip-none-post": "C12", "OWN-stdin-skip-validation": "C12", "OWN-println-before-error": "C13",
+             "OWN-dev-timestamp-local-now": "C14", "OWN-python-wrong-flag": "C18", "OWN-sanitize-keep-double-separator": "C16"}
 log = open("/tmp/wt/confirm_all.log").read() if os.path.exists("/tmp/wt/confirm_all.log") else ""
 for prop in sorted(os.listdir(SRC)):
-    for x in ("A", "B"):
+    labels = ("A", "B", "C", "D") if prop != "OWN" else sorted(os.listdir(os.path.join(SRC, prop)))
+    for x in labels:
         d = os.path.join(SRC, prop, x)
         if not os.path.exists(os.path.join(d, "patch.diff")):
             continue
         sid = "%s-%s" % (prop, x)
+        if prop == "OWN" and sid not in OWN_PROPS:
+            continue
         out = os.path.join(DST, sid)
         os.makedirs(out, exist_ok=True)
         for f in ("patch.diff", "demo.sh", "notes.md"):
@@ -20,8 +26,9 @@ for prop in sorted(os.listdir(SRC)):
         meta_path = os.path.join(out, "meta.json")
         meta = json.load(open(meta_path)) if os.path.exists(meta_path) else {}
         meta.update(dict(
-            id=sid, property=prop, files_changed=files,
-            origin="independent sub-agent given only the property text and a scratch worktree",
+            id=sid, property=OWN_PROPS.get(sid, prop), files_changed=files,
+            origin=("change from the design's own list of planned breaks (DESIGN §6), implemented and test-suite-checked by a sub-agent that saw only the change description"
+                    if prop == "OWN" else "independent sub-agent given only the property text and a scratch worktree"),
             needs_to_manifest=notes.strip()[:1500],
             confirmed=dict(
                 how="tools/confirm_mutant.sh in scratch worktree /tmp/wt/base at /repo HEAD: patch applies, `cargo build --offline` ok, "
